@@ -4,10 +4,10 @@
                                   filter_bilateral, filter_disparity
     pandora/filter/median.py      MedianFilter.median_filter, filter_disparity
     pandora/filter/median_for_intervals.py  MedianForIntervalsFilter.filter_disparity
-    pandora/common.py             sliding_window   (tuples are lists of integers; strides in ELEMENTS, see Lib/NpArr.v)
+    pandora/common.py             sliding_window   (tuples are lists of integers; strides in ELEMENTS, see Lib/NpNd.v)
 
 Python `ast` only (pandora is not imported), fail closed.  The functions are vectorised numpy code; each statement is
-mapped, one construct at a time, to a `let` over the numpy combinators of coq/Lib/NpArr.v (which carry ALL the meaning:
+mapped, one construct at a time, to a `let` over the numpy combinators of coq/Lib/NpNd.v (which carry ALL the meaning:
 broadcasting, transposition, basic indexing, nansum over axes (2, 3), NaN propagation, boolean-mask assignment) and of
 coq/Model/FiltersNp.v (np.nanmedian, the dataset record).  The translator only
   * types the names (Z int / Q float / F float array / B boolean array / M integer array / DS dataset) from the
@@ -931,7 +931,7 @@ def main():
     add(gen_function(med, "MedianFilter", "filter_disparity", "g_median_filter_disparity", "DS", ds="disp", table=ds_table))
     add(gen_mfi(mfi))
     body = ("From Coq Require Import ZArith QArith List Bool.\n"
-            "From Pandora Require Import Lib.NpArr Model.FiltersNp.\nFrom Pandora Require Gen.Constants.\n"
+            "From Pandora Require Import Lib.NpNd Model.FiltersNp.\nFrom Pandora Require Gen.Constants.\n"
             "Import ListNotations.\nOpen Scope Z_scope.\n\n" + "\n".join(parts))
     path, changed = emit("FilterKernels", body, sources)
     print(f"gen_filter_kernels: {path} {'rewritten' if changed else 'unchanged'} definitions={len(parts) + 1}")
